@@ -635,6 +635,18 @@ func (Prop) RunUnit(env *kernel.Env, unit int) {
 					}
 				}
 			}
+			// invalid escape sequences inside the string literals
+			q.TokenFault = true
+			for _, c := range q.escapeCorruptions(r) {
+				for _, tp := range []string{"arg", "fromfile", "module"} {
+					qq := q
+					d := &Data{Format: "query", Query: &qq, Corrupt: c, Transport: tp}
+					if !try(d) {
+						break
+					}
+					out.Inc("query_invalid_escape")
+				}
+			}
 			_ = qt
 			out.Inc("queries_all_boundaries")
 		}
